@@ -58,6 +58,9 @@ BEHAVIOURS = {
     "syspath-reset": "sys.path[:] = [p for p in sys.path if not p.startswith(os.path.dirname(os.path.abspath(__file__)))]\n",
     "spawn-uncaught": "import subprocess\nsubprocess.check_output(['true'])\n",
     "spawn-then-write-link": "import subprocess\nsubprocess.check_output(['true'])\ntry:\n    open(os.path.join('pkglink', 'stamp.txt'), 'w').write('x')\nexcept Exception:\n    pass\n",
+    "load-rel": "import importlib.util\n_sp = importlib.util.spec_from_file_location('rv_rel_helper', 'helper_mod.py')\n_hm = importlib.util.module_from_spec(_sp)\n_sp.loader.exec_module(_hm)\n",
+    "chdir-up": "os.chdir('../../')\n",
+    "load-rel-then-leave": "import importlib.util\n_sp = importlib.util.spec_from_file_location('rv_rel_helper', 'helper_mod.py')\n_hm = importlib.util.module_from_spec(_sp)\n_sp.loader.exec_module(_hm)\nos.chdir('../../')\n",
     "thread": "import threading\n_t = threading.Thread(target=lambda: None)\n_t.start()\n_t.join()\n",
 }
 EXITS = ["sys.exit(0)", "sys.exit(3)", "os._exit(1)", "raise RuntimeError('boom')", "raise SystemExit(2)",
